@@ -9,13 +9,7 @@ from pyvc import replay as _replay
 
 PROP = "C30"
 
-FixPatch = rec_class("sqlfluff.core.linter.patch:FixPatch", templated_slice=SLICE, fixed_raw=Text, patch_category=Text,
-                     source_slice=SLICE, templated_str=Text, source_str=Text)
-RawFileSlice = rec_class("sqlfluff.core.templaters.base:RawFileSlice", raw=Text, slice_type=Text, source_idx=INT,
-                         block_idx=INT, tag=TOpt(Text))
-inline("sqlfluff.core.linter.patch:FixPatch.dedupe_tuple")
-inline("sqlfluff.core.templaters.base:RawFileSlice.end_source_idx")
-inline("sqlfluff.core.templaters.base:RawFileSlice.source_slice")
+from .types import FixPatch, RawFileSlice  # noqa: E402
 
 DedupeT = TTuple(TTuple(INT, INT), Text)
 
